@@ -29,6 +29,10 @@ prop("C08", "model_checking",
      "differential exhaustive enumeration: every pair of reachable states x parameter setting reconciled on in-memory redb, file-backed redb and an ordered-map reference backend driven by the crate's own algorithm (byte-identical transcripts), plus every range of an identifier lattice against the set-theoretic definitions of the storage primitives",
      "Relational check on the real code: the same sessions on three backends must produce byte-identical serialized protocol messages and final sets; every storage primitive of StoreInstance is compared with its ordered-map definition on every reachable state and every (x,y) of a 24-point lattice including wrap-around and x=y.",
      "Bounded states (<=3 offered entries, plus a 7..9-entry family); ranges inside the document's namespace; the reference backend is the definition (ascending identifier order), as in the crate's own test stand-in.")
+prop("C09", "exploration",
+     "exhaustive enumeration: every frame of real session transcripts under every two-way (and small three-way) chunking and every truncation; every decoder on all byte strings up to 2/3 bytes and on every single-byte replacement of valid encodings, decoded values exercised on the real code; pinned encodings against an independent hand-written layout encoder",
+     "All distinct session transcripts between small reachable states are encoded with the crate's codec and decoded under every split point, truncation and oversized length prefix, including encoding several frames into one buffer; frame, entry, message, heads, ticket, capability, filter and policy decoders are fed every short byte string and every single-byte corruption of valid encodings under catch_unwind, and whatever decodes is pushed through accessors, signature verification and a real replica; signed-entry, author and namespace encodings are pinned.",
+     "'Arbitrary bytes' is replaced by its exhaustive small-scope counterpart; quick tier uses a 4-value subset beyond the first 48 bytes of each encoding.")
 prop("C10", "fault_enumeration",
      "exhaustive enumeration of peer scripts (every sequence of <=3/4 steps over a menu of correct and hostile frames) against the real acceptor and the real initiator over in-memory streams, plus every placement of one local fault (close / disable sync / actor shutdown) before each protocol step of real-vs-real sessions",
      "BobState::run and run_alice are driven over duplex streams by a scripted peer that owns a real replica (so 'correct next frame' is always available) and deviates at every step in every way of the menu; a frame relay injects one local fault before every incoming frame on either side. Both ends must return within the deadline without panic, into_outcome() must be callable after every outcome, a declined request leaves the store unchanged, and counters mirror on success.",
